@@ -61,7 +61,10 @@ def buildRecs (tbl : List Attr) : Heap → Nat → List String → Option (Heap 
 /-- `<int>` = a constant level, `v<int>` = a `*slog.LevelVar` holding that value; the second
 component is the initial value of the world's LevelVar (0, as `new(slog.LevelVar)`, when the
 root does not use it) -/
-def parseLeveler (s : String) : Option (Leveler × Int) :=
+def parseLeveler (s0 : String) : Option (Leveler × Int) :=
+  -- a trailing "s" = HandlerOptions.AddSource and records with a program counter: it only changes
+  -- what the text handler prints, which is the `text` parameter (the oracle field of the case)
+  let s := if s0.endsWith "s" then String.ofList (s0.toList.dropLast) else s0
   if s.startsWith "v" then (parseInt? (s.drop 1).toString).map fun l => (Leveler.var, l)
   else (parseInt? s).map fun l => (Leveler.const l, 0)
 
